@@ -8,6 +8,7 @@ using ObjScope = CMsgPackReadObjectScope<IMsgPackReader>;
 bool obj_value_i32(ObjScope& s, const std::string& key, int& v) { return s.SerializeValue(key, v); }
 bool obj_open_array(ObjScope& s, const std::string& key) { return s.OpenArrayScope(key, 0).has_value(); }
 bool obj_open_object(ObjScope& s, const std::string& key) { return s.OpenObjectScope(key, 0).has_value(); }
+bool obj_open_binary(ObjScope& s, const std::string& key) { return s.OpenBinaryScope(key, 0).has_value(); }
 void obj_finish_child(ObjScope& s) { s.OnFinishChildScope(); }
 void obj_visit_keys(ObjScope& s) { s.VisitKeys([](auto&&) {}); }
 void obj_destroy(ObjScope& s) { s.~ObjScope(); }
